@@ -383,12 +383,10 @@ func malDecoders() []malDecoder {
 		ds = append(ds, malDecoder{name: "from_csv" + o, sigName: "from_csv", dec: "from_csv" + o, enc: "to_csv" + o, seeds: seeds,
 			alphabet: []string{comma, "\n", "\"", "a", "#", " "},
 			ref: func(t string) (any, error) {
-				rows, err := goCSV(t, comma, true, true)
+				// dialect: leading space is trimmed unless the separator itself is white space
+				rows, err := goCSV(t, comma, comma != "\t" && comma != " ", true)
 				if err != nil {
 					return nil, err
-				}
-				if rows == nil {
-					rows = []any{}
 				}
 				return rows, nil
 			},
@@ -396,9 +394,17 @@ func malDecoders() []malDecoder {
 				return canon(got) == canon(want) || (canon(want) == "[]" && got == nil)
 			},
 			known: func(t string, got res) string {
-				if v, ok := got.one(); ok {
-					if m, ok := unwrap(v).(map[string]any); ok && len(m) == 1 && canon(m["gap0"]) == canon(t) {
-						return "decode-error-returned-as-gap-value"
+				v, ok := got.one()
+				if !ok {
+					return ""
+				}
+				if m, ok := unwrap(v).(map[string]any); ok && len(m) == 1 && canon(m["gap0"]) == canon(t) {
+					return "decode-error-returned-as-gap-value"
+				}
+				if comma == "\t" {
+					// recorded class: exactly what the library does when it trims the tab separator
+					if pred, err := goCSV(t, comma, true, true); err == nil && (canon(pred) == canon(v) || (len(pred) == 0 && v == nil)) {
+						return "separator-trimmed-as-leading-space"
 					}
 				}
 				return ""
@@ -483,7 +489,6 @@ func enumMalformed(e *env) {
 	sort.Strings(names)
 	e.r.Extra("malformed_inputs", total)
 	e.r.Extra("malformed_decoders", names)
-	e.r.Sample(map[string]any{"section": "malformed", "decoder": "from_csv", "input": "a,b\nc\n", "reference": "error (wrong number of fields)"})
 }
 
 func checkMalformed(e *env, fn string, items []any) {
@@ -576,7 +581,7 @@ func checkMalformed(e *env, fn string, items []any) {
 				}
 			}
 			sig := "malformed:" + sigName + class
-			if class == ":decode-error-returned-as-gap-value" {
+			if sigName == "from_csv" && class != "" {
 				sig = "csv" + class
 			}
 			e.violate(sig, fmt.Sprintf("%s | %s = %s although the input is malformed (%v); the value re-encodes to %s, not to the input", shown, d.name, got, rerr, re), fn, items[i])
@@ -597,6 +602,9 @@ func checkMalformed(e *env, fn string, items []any) {
 				}
 			}
 			sig := "wellformed:" + sigName + class
+			if sigName == "from_csv" && class != "" {
+				sig = "csv" + class
+			}
 			if d.name == "from_jq" {
 				if k := classifyRoundTrip("jq", want, got); k != "" {
 					sig = "jq:" + k
